@@ -97,6 +97,16 @@ def build(case):
     return live, spec
 
 
+def select_leaf_for_refine(live, i):
+    ls = [e for e in live.mesh.leaf_elements if pairs.aspect_ok(e, 16.0)]
+    ls = ls or list(live.mesh.leaf_elements)
+    return ls[i % len(ls)]
+
+
+def eligible_all(live, e):
+    return True
+
+
 def eligible(live, e):
     b = live.skey(e)
     return b.lx <= 6 and pairs.aspect_ok(e)
@@ -207,8 +217,25 @@ def body(case, rec):
                 with repo.pool_shim([ipm], 1 + case['ei'] % 3):
                     v2 = np.asarray(M0.linform_vector(elems=A, use_mp=True), dtype=float)
                     v3 = np.asarray(M0.linform_vector(elems=Bl, use_mp=True), dtype=float)
+                # the same list object changed in place between two pool calls, and the default list (None = the
+                # mesh's current leaves) after the mesh was refined behind the operator's back
+                same = list(A)
+                with repo.pool_shim([ipm], 2):
+                    M0.linform_vector(elems=same, use_mp=True)
+                    same.reverse()
+                    v4 = np.asarray(M0.linform_vector(elems=same, use_mp=True), dtype=float)
+                pick = select_leaf_for_refine(live, case['ei'])
+                live.mesh.refine_time(pick)
+                now = list(live.mesh.leaf_elements)
+                v5 = np.asarray(M0.linform_vector(use_mp=False), dtype=float) if len(now) <= 40 else None
+                for x in same + (now if v5 is not None else []):
+                    if id(x) not in single and eligible_all(live, x):
+                        single[id(x)] = float(M0.linform(x)[0])
             rec.cls('linform_vector')
-            for nm, vec, lst in (('serial', v1, A), ('pool', v2, A), ('pool_second_call', v3, Bl)):
+            extra = [('pool_same_list_changed_in_place', v4, same)]
+            if v5 is not None and all(id(x) in single for x in now):
+                extra.append(('default_list_after_refinement', v5, now))
+            for nm, vec, lst in [('serial', v1, A), ('pool', v2, A), ('pool_second_call', v3, Bl)] + extra:
                 want = np.array([single[id(x)] for x in lst])
                 if vec.shape != want.shape or not np.array_equal(vec, want):
                     rec.violation(B('linform_vector/' + nm), {'got': vec.tolist(), 'element_wise': want.tolist()}, cj)
